@@ -246,6 +246,39 @@ CHECKS['C16'] = dict(
     technique='TLA+ state machine + TLC BFS/simulate replay into the real wrappers + TLC trace validation of multi-threaded runs',
     design_ref='DESIGN.md sections 3.5 (CtxStack), 5 (C16); notes/C16.md', engine='tlc-ctxstack')
 
+CHECKS['C10'] = dict(
+    text='spec/ConvCache.tla (threads, re-entrant lock with owner/depth, weak-key table code -> (options -> factory), '
+         'double-checked locking with one action per shared-memory step, failing transforms, Redefine/Collect) is model-checked '
+         'by TLC: AtMostOnce, Coherent, NoAlias, NoStale, CacheCoherent, LockDiscipline, FastGetSafe for 3 threads / 3 function '
+         'objects over 2 code objects / 2 option values / re-entrancy depth 2 (3.5 M states thorough; two 3-thread '
+         'configurations, 433 k states, quick), liveness Returns under weak fairness for 2 threads, random behaviours for 6 '
+         'threads. Bound to the code both ways: recorded multi-threaded runs (1-32 threads; to_graph / convert / converted_call '
+         '/ transform; shared code objects, redefined and collected functions; ~100 / ~1100 traces) must be accepted by '
+         'spec/TraceConvCache.tla, and TLC-generated interleavings (120 / 3600, spec/SchedConvCache.tla) are replayed '
+         'deterministically into the real cache with the abstract state compared after every action; every returned function '
+         'is compared with a cache-less fresh conversion.',
+    note='Trusts TLC, CPython GIL-level atomicity of dict operations, and the logging proxies for PyToPy._cache_lock/_cache '
+         '(installed on a fresh PyToPy subclass instance, also as api._TRANSPILER for the duration of a job). The 3-thread '
+         'exhaustive run uses a commuting-local-steps reduction (argued in the module, cross-checked unreduced on smaller '
+         'instances) and thread symmetry (never for liveness). Free-running traces sample schedules; deterministic replay '
+         'covers 2-6 threads. Behavioural equivalence is observed on 3 inputs + options reaching FunctionScope.',
+    technique='TLA+ state machine + TLC (BFS, liveness, simulate); trace validation of recorded runs; deterministic schedule replay',
+    design_ref='DESIGN.md sections 3.5 (ConvCache), 5 (C10); notes/C10.md', engine='tlc-convcache')
+CHECKS['C18'] = dict(
+    text='spec/Anf.tla: TLA+ semantics of Python evaluation order for an expression/statement mini-language + the ANF shape, '
+         'temporaries and rejection predicates. A grammar machine in the spec enumerates all programs up to the tier budget '
+         '(tracer calls in every operand position) and predicts the effect log for every input; the output of the real '
+         'anf.transform is executed against the prediction AND abstracted back into the mini-language so that TLC decides '
+         'Run(out) = Run(src) on all inputs, IsAnf for the active configuration (default and seeded random edge-pattern '
+         'configurations), temporaries discipline and reject/accept expectations (translation validation per program). The '
+         'semantics is validated against CPython on every program in every run.',
+    note='Trusted: vf/c18_lang render/abstract (cross-checked: CPython execution of the unparsed output and TLC\'s verdict on '
+         'the abstracted output must agree, else exit 2), token run-time, TLC. Assumptions: operations on values never raise; '
+         'starred-operand iteration and display construction effect-free; bounded program size (2 nested composites); Python '
+         '3.12 evaluation order. 24 open known-finding signatures from 8 root causes (nested operand hoisting etc.).',
+    technique='grammar-machine enumeration in TLA+ + translation validation decided by TLC + CPython model validation',
+    design_ref='DESIGN.md sections 3.4 (Anf), 5 (C18); notes/C18.md', engine='tlc-anf')
+
 NOT_CLAIMED = {}
 
 
